@@ -8,15 +8,18 @@ pub mod m1_perm0 {
    use crate::common::*;
    ascent! {
       pub struct Prog;
-      relation r0(i64, i64);
       relation r3(i64, i64, i64);
-      relation r1(i64, i64);
+      relation r0(i64, i64);
       relation r2(i64);
-      r3(v0, v0, (v0 + 1)) <-- let v0 = 2, r1(v0, v0), if (v0 < 6), r3(v0, (v0 + 1), (v0 + 1));
+      relation r1(i64, i64);
+      r3(v1, v1, v1) <-- r1(0, v0), r1(v0, v1), r0(3, 2);
+      r3(1, 2, 1);
       r3(v0, v1, v2) <-- r0(v0, v1) if ((*v0) < 3), r1(v1, v2) if ((*v2) != (*v1));
-      r3(v0, v1, v9) <-- r0(v0, v1), let v9 = 2, r1(v1, v9);
+      r3(v0, v0, (v0 + 1)) <-- let v0 = 2, r1(v0, v0), if (v0 < 6), r3(v0, (v0 + 1), (v0 + 1));
+      r1(3, 3) <-- r1(1, 1);
+      r3(v1, ((*v0) + 1), v1) <-- r2(v0) if ((*v0) < 2), if ((*v0) < 6), r1(v1, v0);
       r3(0, 3, 3) <-- r0(1, 1);
-      r3(v1, v1, ((*v0) + 1)) <-- r1(v0, v1) if ((*v1) < 6), if ((*v0) < 6);
+      r2(v0) <-- r0(v0, v1) if ((*v0) < 3), r1(v1, v2) if ((*v2) != (*v1));
    }
    pub struct Inst { p: Prog, pool: Option<ascent::rayon::ThreadPool> }
    pub fn make(pool: Option<usize>) -> Box<dyn Driver> {
@@ -60,12 +63,11 @@ pub mod m2_ren1 {
       node(c) <-- edge(0, a) if ((*a) <= 6) let b = ((*a) + 0), let c = 1;
       foo(0, b) <-- for a in 2..1, node(a) if (a < 6), path(b);
       node(3) <-- foo(a, b);
-      bar(a, k) <-- if let Some(m) = Some(2), edge(a, b), foo(b, m) let k = ((*a) + 1);
-      bar(a, b) <-- for m in 0..3, baz(a, b), baz(m, b);
-      bar(a, a) <-- path(0), foo(1, a), path(b) if ((*a) != 3);
+      bar(a, b) <-- edge(a, b), foo(a, a), edge(b, c);
+      node(a) <-- baz(a, b), baz(a, a), baz(b, c);
+      bar(c, b) <-- if let Some(a) = Some(0), node(b) if ((*b) < 5), path(c) if ((*c) != 3);
       foo(a, c) <-- foo(0, 0), bar(0, a) if ((*a) <= 3), foo(((*a) + 0), b), if let Some(c) = Some(((*a) + 0));
       baz(((*a) + 1), a) <-- baz(a, b), if ((*a) < 6);
-      baz(1, a) <-- if let Some(a) = Some(1);
    }
    pub struct Inst { p: Prog, pool: Option<ascent::rayon::ThreadPool> }
    pub fn make(pool: Option<usize>) -> Box<dyn Driver> {
@@ -147,7 +149,7 @@ pub mod m5_i32 {
       relation r0(i32, i32);
       relation r1(i32, i32);
       relation r2(i32, i32);
-      r2(v0, v1) <-- r2(v0, v1), r2(100007, v2), if ((*v0) != 100014);
+      r2(v0, v1) <-- r2(v0, v1), r2(v1, v1), if ((*v1) != 100014);
       r2(v1, v1) <-- r0(v0, v1), r2(v0, v2);
    }
    pub struct Inst { p: Prog, pool: Option<ascent::rayon::ThreadPool> }
@@ -187,8 +189,8 @@ pub mod m6_str {
       relation r2(String, String);
       r2("s1".to_string(), v0) <-- r1(v0, v1);
       r2(v0, v0) <-- r2("s3".to_string(), v0), r2(v0, v1);
-      r2(v0, v1) <-- r2(v0, v1), r2(v1, v2);
-      r2(v0, v1) <-- r2(v0, v1), r2("s1".to_string(), v2);
+      r2(v0, v1) <-- r2(v0, v1), r2(v1, v1);
+      r2(v0, v2) <-- r1(v0, v1), r2(v1, v2), r1(v2, v3);
       r2(v0, v1) <-- r0(v0, v1), if (v0.clone() == "s3".to_string());
       r1("s1".to_string(), "s0".to_string());
    }
@@ -229,13 +231,10 @@ pub mod m8 {
       relation r2(i64, i64, i64);
       relation r3(i64, i64);
       relation r4(i64);
-      r1(v0, v0) <-- r0(v0), if ((*v0) != 3);
+      r1(v0, v0) <-- r0(v0), if ((*v0) != 0);
       r1(v1, v0) <-- r1(v0, v1), r0(v0);
-      r2(v0, v1, v2) <-- r3(v0, v1), r1(1, v2);
-      r1(v0, v0) <-- r1(v0, 0), if ((*v0) != 0);
-      r1(0, v0) <-- r2(v0, v1, v2), r4(v3);
-      r1(0, 1) <-- r0(3);
-      r4(v0) <-- r4(v0), r2(1, v0, v0), r4(v0);
+      r4(v0) <-- r3(v0, v1), r1(v1, v2), if ((*v2) == 0);
+      r3(v1, v0) <-- r2(0, v0, v1), if ((*v1) == 2);
    }
    pub struct Inst { p: Prog, pool: Option<ascent::rayon::ThreadPool> }
    pub fn make(pool: Option<usize>) -> Box<dyn Driver> {
@@ -278,7 +277,7 @@ pub mod m9_perm0 {
       r2(v2, v1, v5) <-- r1(v0, v1), r2(v4, v1, v5), if ((*v0) != 2), r2(v2, v1, v3);
       r2(v0, v0, v0) <-- r1(v0, 3), if ((*v0) == 1);
       r1(v1, v2) <-- r2(v0, 3, v1), if ((*v0) != 3), r1(1, v2);
-      r2(v0, v1, v9) <-- r1(v0, v1), r1(v1, v9);
+      r2(v0, v1, v0) <-- r1(v0, v1), r1(v1, v1);
    }
    pub struct Inst { p: Prog, pool: Option<ascent::rayon::ThreadPool> }
    pub fn make(pool: Option<usize>) -> Box<dyn Driver> {
@@ -304,6 +303,96 @@ pub mod m9_perm0 {
    }
 }
 
+#[allow(unused, non_snake_case, clippy::all)]
+pub mod m10_perm1 {
+   use ascent::*;
+   use ascent::aggregators::*;
+   use ascent::lattice::{Dual, set::Set};
+   use crate::common::*;
+   ascent! {
+      pub struct Prog;
+      relation r0(i64, i64);
+      relation r1(i64, i64);
+      relation r2(i64);
+      relation r3(i64, i64, i64);
+      r2(v0) <-- r0(v0, 3);
+      r3(v3, v3, v1) <-- if let Some(v0) = Some(2), r2(v3), r1(v1, v2);
+      r1(((*v1) + 1), v1) <-- for v0 in 2..3, r0(v1, v0) if ((*v1) != 3), if ((*v1) < 6);
+      r1(v0, v1) <-- r0(v0, v1), r0(v1, v2), r0(v0, v0);
+      r1(v0, v0) <-- r0(v0, 3);
+      r2(v0) <-- r0(v0, v1), r0(v1, v1);
+   }
+   pub struct Inst { p: Prog, pool: Option<ascent::rayon::ThreadPool> }
+   pub fn make(pool: Option<usize>) -> Box<dyn Driver> {
+      let pool = pool.map(|n| ascent::rayon::ThreadPoolBuilder::new().num_threads(n).build().unwrap());
+      let p = match &pool { Some(pl) => pl.install(|| Default::default()), None => Default::default() };
+      Box::new(Inst { p, pool })
+   }
+   impl Driver for Inst {
+      fn load(&mut self, rel: usize, rows: &[Sexp], append: bool) -> Option<()> {
+         match rel {
+         0 => { let v: Vec<(i64,i64,)> = parse_rows(rows)?; if append { self.p.r0.extend(v) } else { self.p.r0 = v } },
+         1 => { let v: Vec<(i64,i64,)> = parse_rows(rows)?; if append { self.p.r1.extend(v) } else { self.p.r1 = v } },
+         2 => { let v: Vec<(i64,)> = parse_rows(rows)?; if append { self.p.r2.extend(v) } else { self.p.r2 = v } },
+         3 => { let v: Vec<(i64,i64,i64,)> = parse_rows(rows)?; if append { self.p.r3.extend(v) } else { self.p.r3 = v } },
+            _ => return None,
+         }
+         Some(())
+      }
+      fn run(&mut self) { match &self.pool { Some(pl) => { let p = &mut self.p; pl.install(|| p.run()) }, None => self.p.run() } }
+      fn run_here(&mut self) { self.p.run() }
+      fn run_timeout(&mut self, k: usize) -> Option<bool> { let _ = k; None }
+      fn dump(&self) -> String { vec![dump_rel(0, self.p.r0.iter().map(Row::render).collect()), dump_rel(1, self.p.r1.iter().map(Row::render).collect()), dump_rel(2, self.p.r2.iter().map(Row::render).collect()), dump_rel(3, self.p.r3.iter().map(Row::render).collect())].join(" | ") }
+      fn iters(&self) -> String { format!("iters {}", self.p.scc_iters.iter().map(|x| x.to_string()).collect::<Vec<_>>().join(" ")) }
+   }
+}
+
+#[allow(unused, non_snake_case, clippy::all)]
+pub mod m12 {
+   use ascent::*;
+   use ascent::aggregators::*;
+   use ascent::lattice::{Dual, set::Set};
+   use crate::common::*;
+   ascent! {
+      pub struct Prog;
+      relation r0(i64, i64, i64);
+      relation r1(i64, i64, i64);
+      relation r2(i64);
+      relation r3(i64);
+      relation r4(i64, i64, i64);
+      relation r5(i64, i64);
+      r3(v2) <-- r1(v0, v1, v2) if ((*v0) != 5) let v3 = ((*v2) + 0);
+      r3(((*v0) + 1)) <-- r3(1), r0(v0, v1, v2), if ((*v0) < 6);
+      r4(v0, v1, v2) <-- r5(v0, v1), r5(v0, v0), r5(v1, v2);
+      r5(((*v0) + 1), v0) <-- r4(1, 2, v0) if ((*v0) < 2), if ((*v0) < 6);
+   }
+   pub struct Inst { p: Prog, pool: Option<ascent::rayon::ThreadPool> }
+   pub fn make(pool: Option<usize>) -> Box<dyn Driver> {
+      let pool = pool.map(|n| ascent::rayon::ThreadPoolBuilder::new().num_threads(n).build().unwrap());
+      let p = match &pool { Some(pl) => pl.install(|| Default::default()), None => Default::default() };
+      Box::new(Inst { p, pool })
+   }
+   impl Driver for Inst {
+      fn load(&mut self, rel: usize, rows: &[Sexp], append: bool) -> Option<()> {
+         match rel {
+         0 => { let v: Vec<(i64,i64,i64,)> = parse_rows(rows)?; if append { self.p.r0.extend(v) } else { self.p.r0 = v } },
+         1 => { let v: Vec<(i64,i64,i64,)> = parse_rows(rows)?; if append { self.p.r1.extend(v) } else { self.p.r1 = v } },
+         2 => { let v: Vec<(i64,)> = parse_rows(rows)?; if append { self.p.r2.extend(v) } else { self.p.r2 = v } },
+         3 => { let v: Vec<(i64,)> = parse_rows(rows)?; if append { self.p.r3.extend(v) } else { self.p.r3 = v } },
+         4 => { let v: Vec<(i64,i64,i64,)> = parse_rows(rows)?; if append { self.p.r4.extend(v) } else { self.p.r4 = v } },
+         5 => { let v: Vec<(i64,i64,)> = parse_rows(rows)?; if append { self.p.r5.extend(v) } else { self.p.r5 = v } },
+            _ => return None,
+         }
+         Some(())
+      }
+      fn run(&mut self) { match &self.pool { Some(pl) => { let p = &mut self.p; pl.install(|| p.run()) }, None => self.p.run() } }
+      fn run_here(&mut self) { self.p.run() }
+      fn run_timeout(&mut self, k: usize) -> Option<bool> { let _ = k; None }
+      fn dump(&self) -> String { vec![dump_rel(0, self.p.r0.iter().map(Row::render).collect()), dump_rel(1, self.p.r1.iter().map(Row::render).collect()), dump_rel(2, self.p.r2.iter().map(Row::render).collect()), dump_rel(3, self.p.r3.iter().map(Row::render).collect()), dump_rel(4, self.p.r4.iter().map(Row::render).collect()), dump_rel(5, self.p.r5.iter().map(Row::render).collect())].join(" | ") }
+      fn iters(&self) -> String { format!("iters {}", self.p.scc_iters.iter().map(|x| x.to_string()).collect::<Vec<_>>().join(" ")) }
+   }
+}
+
 fn main() {
-   common::main_loop(&[("m1_perm0", m1_perm0::make as common::Factory), ("m2_ren1", m2_ren1::make as common::Factory), ("m4_perm1", m4_perm1::make as common::Factory), ("m5_i32", m5_i32::make as common::Factory), ("m6_str", m6_str::make as common::Factory), ("m8", m8::make as common::Factory), ("m9_perm0", m9_perm0::make as common::Factory)]);
+   common::main_loop(&[("m1_perm0", m1_perm0::make as common::Factory), ("m2_ren1", m2_ren1::make as common::Factory), ("m4_perm1", m4_perm1::make as common::Factory), ("m5_i32", m5_i32::make as common::Factory), ("m6_str", m6_str::make as common::Factory), ("m8", m8::make as common::Factory), ("m9_perm0", m9_perm0::make as common::Factory), ("m10_perm1", m10_perm1::make as common::Factory), ("m12", m12::make as common::Factory)]);
 }
